@@ -18,8 +18,21 @@ REFS = ["/abs/{n}.{x}", "rel/{n}.{x}", "../up/{n}.{x}", "./{n}.{x}", "{n}.{x}?v=
         "?pic={n}", "/q/{n}.{x}?a=1&b=2"]
 
 
-def ref(r, n, x):
+# references a browser cleans up before resolving them (URL standard: leading / trailing C0-control-or-space stripped, tab / newline
+# removed, backslash = slash in http(s) URLs); used in single-URL attributes only
+ODD_REFS = [" /abs/{n}.{x}", "rel/{n}.{x} ", "  ../up/{n}.{x}\n", "img\\{n}.{x}", "\\abs\\{n}.{x}", "\t{n}.{x}", " https://secure.example/a/{n}.{x} "]
+
+
+def ref(r, n, x, odd=False):
+    if odd and r.random() < 0.2:
+        return r.choice(ODD_REFS).format(n=n, x=x)
     return r.choice(REFS).format(n=n, x=x)
+
+
+def browser_join(page, u):
+    u = u.strip(" \t\n\r\f").replace("\t", "").replace("\n", "").replace("\r", "")
+    path, sep, rest = u.partition("?")
+    return urljoin(page, path.replace("\\", "/") + sep + rest)
 
 
 def attr(r, k, v):
@@ -45,15 +58,15 @@ def gen_doc(r, k):
     for _ in range(r.randrange(2, 12)):
         kind = r.choice(["img", "img", "imgset", "script", "css", "icon", "alternate", "picture", "video", "audio", "style", "styleattr", "a", "a", "decoy", "media-source"])
         if kind == "img":
-            u = ref(r, name(), "png"); add("img", [("alt", "x"), ("src", u)]); planted.append(("img", u))
+            u = ref(r, name(), "png", odd=True); add("img", [("alt", "x"), ("src", u)]); planted.append(("img", u))
         elif kind == "imgset":
             u0, u1, u2 = ref(r, name(), "jpg"), ref(r, name(), "jpg"), ref(r, name(), "jpg")
             u1, u2 = u1.replace(",", ""), u2.replace(",", "")
             add("img", [("src", u0), ("srcset", "%s 1x, %s 2x" % (u1, u2))]); planted += [("img", u0), ("img", u1), ("img", u2)]
         elif kind == "script":
-            u = ref(r, name(), "js"); add("script", [("src", u)], void=False); planted.append(("script", u))
+            u = ref(r, name(), "js", odd=True); add("script", [("src", u)], void=False); planted.append(("script", u))
         elif kind == "css":
-            u = ref(r, name(), "css"); add("link", [("rel", "stylesheet"), ("href", u)]); planted.append(("link", u))
+            u = ref(r, name(), "css", odd=True); add("link", [("rel", "stylesheet"), ("href", u)]); planted.append(("link", u))
         elif kind == "icon":
             u = ref(r, name(), "ico"); add("link", [("rel", r.choice(["icon", "preload", "apple-touch-icon"])), ("href", u)]); planted.append(("link", u))
         elif kind == "alternate":
@@ -66,7 +79,7 @@ def gen_doc(r, k):
             els.append({"close": "picture"})
             planted += [("source", u1), ("source", u2), ("img", u3)]
         elif kind in ("video", "audio"):
-            u = ref(r, name(), "mp4" if kind == "video" else "mp3"); add(kind, [("controls", ""), ("src", u)], void=False); planted.append((kind, u))
+            u = ref(r, name(), "mp4" if kind == "video" else "mp3", odd=True); add(kind, [("controls", ""), ("src", u)], void=False); planted.append((kind, u))
         elif kind == "media-source":
             u = ref(r, name(), "webm")
             els.append({"tag": "video", "attrs": [["controls", ""]], "text": "", "void": False, "open": True})
@@ -122,7 +135,7 @@ def expected(page, planted, cfg):
             continue
         if t is not None and t in cfg["disableHTMLTag"]:
             continue
-        absu = urldefrag(urljoin(page, u))[0]
+        absu = urldefrag(browser_join(page, u))[0]
         if absu == page:
             continue
         want[absu] = (tag, u)
@@ -200,7 +213,11 @@ def run(ctx):
     for (impl_assets, page, anchors), m, l in zip(model_expect, model, model_lines):
         want = "assets=" + json.dumps(impl_assets, separators=(",", ":"), ensure_ascii=False)
         got = m.split(" outlinks=")[0]
-        if want != got:
+        try:
+            same = json.loads(got[len("assets="):]) == impl_assets     # compare values, not JSON spellings (\t vs \u0009)
+        except ValueError:
+            same = False
+        if not same:
             ctx.disagree(json.loads(l), want[:500], got[:500])
     ctx.assumptions += ["the HTML parser is an oracle (documents are well formed); 'as a browser would' is urllib.parse.urljoin on the reference forms generated",
                         "srcset candidates contain no commas; data-* lazy-loading attributes and JSON in scripts are extra (not required by the property)"]
